@@ -126,10 +126,11 @@ def triples_for(spec, rng, exhaustive, limit=None):
     n = len(spec["nodes"])
     roots = [i for i in range(n) if g.in_degree(i) == 0 and not spec["nodes"][i]["args"] and not spec["nodes"][i]["kwargs"]]
     out = []
-    r_opts = [None] + [list(c) for k in range(1, len(roots) + 1) for c in itertools.combinations(roots, k)]
+    # an empty list is a legal (empty) subset and is different from "not given" (None)
+    r_opts = [None, []] + [list(c) for k in range(1, len(roots) + 1) for c in itertools.combinations(roots, k)]
     for R in r_opts:
         part = S.closure(spec, R, None, None)
-        x_opts = [None] + [list(c) for k in (1, 2) for c in itertools.combinations(sorted(part), k)]
+        x_opts = [None, []] + [list(c) for k in (1, 2) for c in itertools.combinations(sorted(part), k)]
         for X in x_opts:
             t_opts = [None] + [list(c) for k in range(0, n + 1) for c in itertools.combinations(range(n), k)]
             for T in t_opts:
